@@ -9,16 +9,20 @@
                  to context.layers in Layer.__init__, and the explicit-proxy setup instantiates ClientTLSLayer AND
                  HttpLayer before the hook returns, so the stack below is what tls_start_client sees.
      StartClient mitmproxy/addons/tlsconfig.py  TlsConfig.tls_start_client: AppData(client_alpn, server_alpn, http2),
-                 with the "force HTTP/1 for secure web proxies" override
-                     len(context.layers) == 2 and isinstance(context.layers[0], modes.HttpProxy)
+                 with the "force HTTP/1 for secure web proxies" override (repaired in 98f690264)
+                     layers[0] is HttpProxy/HttpUpstreamProxy and (len(layers) == 2 or the only ClientTLSLayer is
+                     layers[1]);  LegacyOverride = TRUE gives the old test len == 2 and layers[0] is HttpProxy
      Select      mitmproxy/addons/tlsconfig.py  alpn_select_callback (called directly, or by OpenSSL during a real
                  handshake; OpenSSL does not call it when the client sent no ALPN extension -- same result: none)
 
+                 LegacyMirror = TRUE gives the rule before 47c6368bd (upstream mirrored without consulting http2,
+                 fall-through to the client's first HTTP protocol when the upstream's is not offered).
    The model is the code as it is: where the code deviates from the property the monitor (Mon_Alpn) reports it, and
-   the replay on the real code must reproduce it.                                                            *)
+   the replay on the real code must reproduce it.  With both Legacy constants FALSE no bad tuple is reachable. *)
 EXTENDS Mon_Alpn, TLC
 CONSTANTS Rows,    \* set of <<mode, offers, upstream, http2, forced>>
-          Vias     \* subset of {"callback", "handshake"}
+          Vias,    \* subset of {"callback", "handshake"}
+          LegacyOverride, LegacyMirror   \* named deviations of the code before its repair (FALSE = the current code)
 VARIABLES pc, row, layers, appdata, mon, obs
 vars == <<pc, row, layers, appdata, mon, obs>>
 
@@ -51,7 +55,10 @@ Accept ==
 
 StartClient ==
   /\ Live /\ pc = "accepted"
-  /\ LET override == Len(layers) = 2 /\ layers[1] = "HttpProxy" IN
+  /\ LET tlsAt == { i \in 1..Len(layers) : layers[i] = "ClientTLSLayer" }
+         override == IF LegacyOverride THEN Len(layers) = 2 /\ layers[1] = "HttpProxy"
+                     ELSE /\ Len(layers) >= 1 /\ layers[1] \in {"HttpProxy", "HttpUpstreamProxy"}
+                          /\ (Len(layers) = 2 \/ tlsAt = {2}) IN
      appdata' = [client_alpn |-> IF override THEN "http/1.1" ELSE row[5],
                  server_alpn |-> row[3], http2 |-> row[4]]
   /\ pc' = "started" /\ UNCHANGED <<row, layers>> /\ Emit(<<>>)
@@ -66,8 +73,11 @@ FirstIn(offers, allowed) ==
 Callback(ad, offers) ==
   IF ad.client_alpn # "unset"
     THEN (IF InSeq(ad.client_alpn, offers) THEN ad.client_alpn ELSE "none")
-  ELSE IF ad.server_alpn \notin {"unknown", "none"} /\ InSeq(ad.server_alpn, offers) THEN ad.server_alpn
-  ELSE IF ad.server_alpn = "none" THEN "none"
+  ELSE IF LegacyMirror /\ ad.server_alpn \notin {"unknown", "none"} /\ InSeq(ad.server_alpn, offers) THEN ad.server_alpn
+  ELSE IF LegacyMirror /\ ad.server_alpn = "none" THEN "none"
+  ELSE IF ~LegacyMirror /\ ad.server_alpn # "unknown"        \* upstream known: mirror it or nothing
+    THEN (IF ad.server_alpn # "none" /\ InSeq(ad.server_alpn, offers) /\ (ad.http2 \/ ad.server_alpn # "h2")
+          THEN ad.server_alpn ELSE "none")
   ELSE FirstIn(offers, IF ad.http2 THEN HTTPALL ELSE HTTP1)
 
 Select(via) ==
